@@ -225,7 +225,8 @@ def replay(pid, path):
             tf = ctx.work / "h.ndjson"
             tf.write_text(json.dumps(data["history"]) + "\n")
         ctx.validate(tf, {data["case"]["id"]: data["case"]} if data.get("case") else None, driver=data.get("driver"),
-                     opts=data.get("opts"), shards=1, module=data.get("module", "MCTrace"), eps=data.get("eps", "EpsDefault"))
+                     opts=data.get("opts"), shards=1, module=data.get("module", "MCTrace"), eps=data.get("eps", "EpsDefault"),
+                     sparse=data.get("sparse", False), n_records=1)
     except MachineryError as e:
         print("MACHINERY-FAILURE", e)
         return 2
